@@ -15,6 +15,10 @@ pub trait Node: Buf {
     fn set_limit(&mut self, _n: usize) -> bool {
         false
     }
+    /// the same description, taking the tree apart through the adapters' `into_inner()` (used after the last op of a case)
+    fn describe_into(self: Box<Self>) -> String {
+        self.describe()
+    }
 }
 
 pub type N = Box<dyn Node>;
@@ -97,10 +101,23 @@ impl Node for Chain<N, N> {
     fn describe(&self) -> String {
         format!("chain {} {}", self.first_ref().describe(), self.last_ref().describe())
     }
+    fn describe_into(mut self: Box<Self>) -> String {
+        // first_mut / last_mut must name the same halves as first_ref / last_ref, into_inner must hand them back in order
+        let via_mut = format!("chain {} {}", Chain::first_mut(&mut *self).describe(), Chain::last_mut(&mut *self).describe());
+        let (a, b) = Chain::into_inner(*self);
+        let via_inner = format!("chain {} {}", a.describe_into(), b.describe_into());
+        if via_mut == via_inner { via_inner } else { format!("ACCESSORS-DISAGREE {} | {}", via_mut, via_inner) }
+    }
 }
 impl Node for Take<N> {
     fn describe(&self) -> String {
         format!("take {} {}", self.limit(), self.get_ref().describe())
+    }
+    fn describe_into(mut self: Box<Self>) -> String {
+        let lim = Take::limit(&*self);
+        let via_mut = format!("take {} {}", lim, Take::get_mut(&mut *self).describe());
+        let via_inner = format!("take {} {}", lim, Take::into_inner(*self).describe_into());
+        if via_mut == via_inner { via_inner } else { format!("ACCESSORS-DISAGREE {} | {}", via_mut, via_inner) }
     }
     fn set_limit(&mut self, n: usize) -> bool {
         Take::set_limit(self, n);
@@ -186,6 +203,9 @@ delegate_buf!(Boxed);
 impl Node for Boxed {
     fn describe(&self) -> String {
         format!("box {}", self.0.describe())
+    }
+    fn describe_into(self: Box<Self>) -> String {
+        format!("box {}", self.0.describe_into())
     }
 }
 
